@@ -34,13 +34,13 @@ def sentcacheMonitor : Nat := 4  -- cuckooSentCache.monitor (Resize stops the ol
 One flag per finding group (patches `/verif/.cache/C35-fix/N-*.patch`).  When the `fix:` commit N
 lands in /repo, set `fixN` to `true` (and retire the signatures from known_findings.jsonl): the
 discipline of the repaired field and the list of known violations follow from the flags. -/
-def fix1 : Bool := false  -- cuckooSentCache.kept becomes an atomic.Pointer
-def fix2 : Bool := false  -- fileConfig.mainHash / rulesHash compared and read under f.mux
-def fix3 : Bool := false  -- fileConfig.callbacks copied under f.mux before the calls
-def fix4 : Bool := false  -- ConfigWatcher.done created by Start
-def fix5 : Bool := false  -- RedisPubsubPeers.hash becomes an atomic.Uint64
-def fix6 : Bool := false  -- RedisPubsubPeers.callbacks guarded by the new cbMut
-def fix7 : Bool := false  -- SamplerFactory.sharedDynsamplers length read under s.mutex
+def fix1 : Bool := true  -- cuckooSentCache.kept becomes an atomic.Pointer
+def fix2 : Bool := true  -- fileConfig.mainHash / rulesHash compared and read under f.mux
+def fix3 : Bool := true  -- fileConfig.callbacks copied under f.mux before the calls
+def fix4 : Bool := true  -- ConfigWatcher.done created by Start
+def fix5 : Bool := true  -- RedisPubsubPeers.hash becomes an atomic.Uint64
+def fix6 : Bool := true  -- RedisPubsubPeers.callbacks guarded by the new cbMut
+def fix7 : Bool := true  -- SamplerFactory.sharedDynsamplers length read under s.mutex
 def allFixed : Bool := fix1 && fix2 && fix3 && fix4 && fix5 && fix6 && fix7
 
 def disciplines : List (Nat × LDisc) := [
